@@ -185,13 +185,34 @@ func runC15(c *Ctx) {
 			}
 		}
 	}
-	ast.Inspect(wfd.Body, func(n ast.Node) bool {
+	// a formatting helper: any function value of the shape func(format string, args ...any) …
+	isFormatFunc := func(e ast.Expr) bool {
+		sig, ok := info.TypeOf(e).Underlying().(*types.Signature)
+		if !ok || !sig.Variadic() || sig.Params().Len() != 2 {
+			return false
+		}
+		b, ok := sig.Params().At(0).Type().Underlying().(*types.Basic)
+		return ok && b.Kind() == types.String
+	}
+	var wbodies []ast.Node
+	for _, d := range c.declsFrom("afm", wfd, 2) {
+		wbodies = append(wbodies, d.Body)
+	}
+	inspectAll := func(f func(n ast.Node) bool) {
+		for _, b := range wbodies {
+			ast.Inspect(b, f)
+		}
+	}
+	inspectAll(func(n ast.Node) bool {
 		call, ok := n.(*ast.CallExpr)
 		if !ok || len(call.Args) == 0 {
 			return true
 		}
 		isHelper := false
 		if id, ok := call.Fun.(*ast.Ident); ok && helper != nil && info.ObjectOf(id) == helper {
+			isHelper = true
+		}
+		if _, isSel := call.Fun.(*ast.SelectorExpr); !isSel && isFormatFunc(call.Fun) {
 			isHelper = true
 		}
 		name := types.ExprString(call.Fun)
@@ -236,10 +257,27 @@ func runC15(c *Ctx) {
 	rfd := c.funcDecl("afm", "", "Read")
 	type rrec struct{ field, parser string }
 	reader := map[string]rrec{}
-	parserOf := func(n ast.Node) string {
+	afmDecls := map[types.Object]*ast.FuncDecl{}
+	for _, f := range c.pkg("afm").Syntax {
+		for _, d := range f.Decls {
+			if x, ok := d.(*ast.FuncDecl); ok && x.Body != nil {
+				afmDecls[info.Defs[x.Name]] = x
+			}
+		}
+	}
+	var parserOf func(n ast.Node) string
+	parserOf = func(n ast.Node) string {
 		p := ""
 		ast.Inspect(n, func(m ast.Node) bool {
 			if call, ok := m.(*ast.CallExpr); ok {
+				// a helper of the package: what it parses with is what the clause parses with
+				if id, ok := call.Fun.(*ast.Ident); ok {
+					if d := afmDecls[info.Uses[id]]; d != nil && p == "" {
+						if q := parserOf(d.Body); q != "word" {
+							p = q
+						}
+					}
+				}
 				switch types.ExprString(call.Fun) {
 				case "strconv.Atoi":
 					p = "Atoi"
@@ -265,13 +303,31 @@ func runC15(c *Ctx) {
 		}
 		return p
 	}
+	isMetricsLike := func(e ast.Expr) bool {
+		t := info.TypeOf(e)
+		if t == nil {
+			return false
+		}
+		if pt, ok := t.Underlying().(*types.Pointer); ok {
+			t = pt.Elem()
+		}
+		nt, ok := t.(*types.Named)
+		if !ok {
+			return false
+		}
+		switch nt.Obj().Name() {
+		case "Metrics", "GlyphInfo", "KernPair", "Rect16", "Rect":
+			return true
+		}
+		return false
+	}
 	fieldStored := func(n ast.Node) string {
 		f := ""
 		ast.Inspect(n, func(m ast.Node) bool {
 			if as, ok := m.(*ast.AssignStmt); ok {
 				for _, l := range as.Lhs {
 					if sel, ok := l.(*ast.SelectorExpr); ok {
-						if id, ok := sel.X.(*ast.Ident); ok && (id.Name == "res" || id.Name == "BBox") {
+						if isMetricsLike(sel.X) {
 							if f == "" {
 								f = sel.Sel.Name
 							}
